@@ -301,7 +301,7 @@ def corrupt_trace(path, fields, to=None):
 
 # ---------------------------------------------------------------- harness run
 
-def run_harness(ctx, binpath, mode, cases, timeout=900, args=(), env=None):
+def run_harness(ctx, binpath, mode, cases, timeout=900, args=(), env=None, _retry=True):
     """Feed ndjson cases on stdin to `znh <mode>`, read ndjson results."""
     inp = os.path.join(ctx.scratch, "in-%s-%d.ndjson" % (mode, len(os.listdir(ctx.scratch))))
     with open(inp, "w") as f:
@@ -326,6 +326,28 @@ def run_harness(ctx, binpath, mode, cases, timeout=900, args=(), env=None):
             if line:
                 res.append(json.loads(line))
     log("[harness] %s: %d cases -> %d results in %.1fs" % (mode, len(cases), len(res), time.time() - t))
+    # reproduction rule for the watchdog: a case that timed out is run again, few at a time, with a watchdog six times as
+    # long; only a timeout that reproduces is an observation (a loaded machine must not turn into hangs of DemoHn/Zn)
+    if _retry and mode not in ("pm",):
+        tmo = [r for r in res if r.get("obs") == "timeout"]
+        if tmo:
+            wd = 5.0
+            a = list(args)
+            if "-t" in a:
+                wd = float(a[a.index("-t") + 1]); del a[a.index("-t"):a.index("-t") + 2]
+            byid = {c.get("id"): c for c in cases}
+            def rerun(rs):
+                again = run_harness(ctx, binpath, mode, [byid[r["id"]] for r in rs if r.get("id") in byid], timeout=timeout,
+                                    args=a + ["-t", str(wd * 4), "-j", "4"], env=env, _retry=False)
+                return {r["id"]: r for r in again}
+            fixed = rerun(tmo[:40])
+            if len(tmo) > 40 and not any(r.get("obs") == "timeout" for r in fixed.values()):
+                fixed.update(rerun(tmo[40:]))       # none of the first 40 reproduced: load - the others get their second chance too
+            nrec = sum(1 for r in tmo if fixed.get(r["id"], r).get("obs") != "timeout")
+            log("[harness] %s: %d watchdog timeouts, %d re-run with a %.0fs watchdog: %d did not reproduce" % (mode, len(tmo), len(fixed), wd * 4, nrec))
+            res = [fixed.get(r.get("id"), r) if r.get("obs") == "timeout" else r for r in res]
+            if nrec:
+                ctx.notes.append("%s: %d of %d watchdog timeouts did not reproduce with a longer watchdog (machine load) and were not reported" % (mode, nrec, len(tmo)))
     return res
 
 
